@@ -18,3 +18,8 @@ CHECKS["C20"] = (
  "Byte-level model of supla_esp_dns_recv_cb that also returns every index it touches: theorem that all of them are inside the buffer for every reply and request length; the accept decision is characterised exactly (length prefix, RCODE, ANCOUNT, name skip, TYPE/CLASS/RDLENGTH, the 4 address bytes); the request machine is proved to call back at most once per request, never to hang (a pending request always has a timer armed), to bound the tries by the server count and to fail unsendable requests at once. Tie: constants/offsets from a probe, model vs real code on the same op sequences with replies in exact-size heap buffers under ASan, independent python reference for the reported address.",
  "trusted: Lean kernel, probes, harness SDK (callbacks delivered only for a requested connection; timers fire when the ops file says); the SDK's own timer durations (5 s / 200 ms) enter only through 'armed timers eventually fire'",
  "DESIGN.md 4/C20")
+CHECKS["C19"] = (
+ "Lean 4 theorems (exactness of unsigned 32-bit stamp differences for every boot value; uptime monotone across wraps) + differential correspondence + boot-shift replay of device scenarios",
+ "Theorems: for every boot value, every instant and every gap < 2^32 us the C's unsigned difference of two counter readings equals the true elapsed time, and uptime_usec/msec/sec never decrease (they lose exactly 1 us per wrap). uptime.c is run against the model with the wrap placed anywhere; device scenarios (relay timers, shutter moves, buttons) are replayed with boot values placing the wrap before/inside/after each timed interval and their timestamped GPIO/frame traces compared.",
+ "trusted: Lean kernel, harness SDK counter model (cnt = (boot + t) mod 2^32); stamps equal to the reserved value 0 are excluded as in the property; the per-module state machines are compared by replay (exploration), not proved boot-invariant in Lean",
+ "DESIGN.md 4/C19")
